@@ -95,6 +95,15 @@ def monitor(sc, res):
                 for h in wr:
                     if h not in scope:
                         fails.append({"what": f"{desc} wrote {wr[h][0][0]!r} into the ascmhl folder of history {h!r}, which contains none of the named files and no history that does", "replay": sc})
+            elif at in wr:
+                # folder mode: the histories in scope are those whose root folder the effective patterns do not exclude
+                try:
+                    vis = O.visible(ma, at, wr[at][0][1]["ignore"])
+                    for h in wr:
+                        if h != at and O.rel(h, at) not in vis:
+                            fails.append({"what": f"{desc} wrote {wr[h][0][0]!r} into the ascmhl folder of history {h!r}, whose folder the effective patterns {wr[at][0][1]['ignore']} exclude", "replay": sc})
+                except Exception:
+                    pass
             for p in set(ab) | set(aa):
                 if ab.get(p) == aa.get(p):
                     continue
@@ -153,6 +162,14 @@ def run(ctx):
                                {"op": "create", "at": "A", "h": ["sha1"], "now": "2026-03-01 12:00:03"},
                                dict({"op": "create", "at": "", "h": ["md5"], "now": "2026-03-01 12:00:04", "impl_only": True}, **({"n": True} if nflag else {})),
                                {"op": "verify", "at": "A", "impl_only": True}, {"op": "info", "at": "A", "impl_only": True}]})
+    # a nested history in a folder that the enclosing history ignores stays untouched by runs of the enclosing folder,
+    # with rename detection and new files around it
+    for dr in (True, False):
+        tree = {"proxies/p.txt": "p", "proxies/q.txt": "q", "a.txt": "a", "s/b.txt": "b"}
+        ops = [{"op": "create", "at": "proxies", "h": ["md5"], "now": "2026-03-01 12:00:01"}, {"op": "create", "at": "", "h": ["md5"], "now": "2026-03-01 12:00:02", "i": ["proxies"]},
+               {"op": "write", "path": "new.txt", "data": "n"}, {"op": "mv", "src": "a.txt", "dst": "a2.txt"},
+               dict({"op": "create", "at": "", "h": ["md5"], "now": "2026-03-01 12:00:03"}, **({"dr": True} if dr else {})), {"op": "verify", "at": ""}, {"op": "info", "at": ""}]
+        scs.insert(0, {"profile": "c14-ignored-nested", "impl_only": True, "root": "root", "tree": tree, "ops": ops})
     # histories in states that no command of the current tool produces (the text chain of the first releases with or
     # without the XML chain, no chain at all, foreign files in the ascmhl folder): whatever the commands answer, the
     # read-only ones write nothing and flatten writes nothing into the source
